@@ -340,6 +340,19 @@ def run_case(case, tier):
         if run.exc_type != "ValueError":
             viol.append({"cls": "empty-input-not-valueerror", "msg": "input without usable atoms: %r" % (run.exc,)})
         return util.finish(case, viol, counts, classes + ["emptied"], False, desc)
+    if rng.random() < 0.25:
+        # incomplete records too: lines that end after the coordinates (column 54), after the occupancy, or
+        # mid-way through the trailing columns - every atom of the file or every third one
+        tail = rng.choice(("", "", "  1.00", "  1.00 20.0"))
+        every = rng.choice((1, 3))
+        cut = []
+        for i, r in enumerate(recs):
+            if r.raw is None and i % every == 0:
+                r = r.copy()
+                r.tail = tail
+            cut.append(r)
+        recs = cut
+        classes.append("records-end-after-column-%d" % (54 + len(tail)))
     text = pdbio.dump(recs)
     xo = util.neutral_options(rng, classes=classes)
     if not sources.identities_unique(recs):
